@@ -36,7 +36,8 @@ LEAN = dict(
             ["MetadorModel.Bridge." + m for m in ["DiffType", "DiffStatus", "DiffChildren", "DiffCompare", "DiffNodes",
                                                    "DiffGet", "Diff", "DiffLookup"]],
     theorems=[T + n for n in ["compare_none_iff", "reported_exact", "order_safe", "get_agrees",
-                              "compare_none_iff_lookup", "reported_once"]] +
+                              "compare_none_iff_lookup", "reported_once", "listing_nil_iff", "reversed_mirror",
+                              "undo_roundtrip", "compose_same_result"]] +
              # translation tie: Gen/Diff.lean (regenerated from util/diff.py on every run) = Model/Diff.lean
              [B + n for n in ["gen_type", "gen_prev_curr_type", "gen_status", "gen_children", "gen_compare",
                               "gen_compare_top", "gen_nodes", "gen_nodes_compare", "gen_get", "gen_get_compare"]],
@@ -282,7 +283,43 @@ def check_pair(a0, b0):
         g = gets[p] = d.get(Path(*p) if p else Path(""))
         out.append("get " + ("none" if g is None else _node_line(g)))
     oracle += check_gets(d, gets, listed)
+    # --- the opposite comparison is the mirror image and undoes the change (C18.reversed_mirror, C18.undo_roundtrip)
+    oracle += check_reverse(listed, a0, b0)
     return out, oracle, sorted(tags)
+
+
+MIRROR = {"+": "-", "-": "+", "~": "~"}
+
+
+def check_reverse(listed, a0, b0):
+    """oracle for the theorems about the opposite direction: compare(b, a) lists the same paths with old and new
+    entry swapped (added <-> removed) and its listing, processed in order on b, gives back a."""
+    from metador_core.util.diff import DirDiff
+    oracle = []
+    try:
+        r = DirDiff.compare(copy.deepcopy(b0), copy.deepcopy(a0))
+        rnodes = r._diff_root.nodes() if r._diff_root is not None else []
+    except Exception as e:  # noqa: BLE001
+        return [dict(kind="reverse-compare-raised", error="%s: %s" % (type(e).__name__, str(e)[:200]))]
+    back = {tuple(n.path.parts): n for n in rnodes}
+    if set(back) != set(listed):
+        oracle.append(dict(kind="reverse-paths-differ", only_forward=sorted(map(list, set(listed) - set(back)))[:4],
+                           only_backward=sorted(map(list, set(back) - set(listed)))[:4]))
+    for p, n in listed.items():
+        m = back.get(p)
+        if m is None:
+            continue
+        if m.status().value != MIRROR.get(n.status().value):
+            oracle.append(dict(kind="reverse-status-not-mirrored", path=list(p), forward=n.status().value, backward=m.status().value))
+        if m.prev != n.curr or m.curr != n.prev:
+            oracle.append(dict(kind="reverse-entries-not-swapped", path=list(p)))
+    if rnodes:
+        res, err = simulate(b0, rnodes)
+        if err:
+            oracle.append(dict(kind="undo-unsafe-order", error=err))
+        elif res != a0:
+            oracle.append(dict(kind="undo-does-not-give-old-tree", got=res))
+    return oracle
 
 
 # ----------------------------------------------------------------------------- later edits of the snapshot objects
